@@ -930,7 +930,74 @@ def _don_trunk_reshape():
     TrunkNet._reshape_multidimensional_output = r
 
 
+def _fno_pad_front():
+    import torch
+    from torchphysics.models.FNO import _FourierLayer
+
+    def forward(self, points):
+        fft = torch.fft.rfftn(points, dim=self.fourier_dims)
+        shp = torch.tensor(fft.shape[1:-1])
+        padding = torch.zeros(2 * self.data_dim + 2, dtype=torch.int32)
+        padding[2::2][1:] = torch.flip((self.mode_num - shp), dims=(0,))          # pads / cuts at the FRONT of each axis
+        fft = torch.nn.functional.pad(fft, padding.tolist())
+        fft = fft * self.fourier_kernel
+        out = torch.fft.irfftn(fft, s=points.shape[1:-1], dim=self.fourier_dims)
+        if self.linear_connection:
+            out += self.linear_transform(points)
+        if self.skip_connection:
+            out += points
+        return out
+    _FourierLayer.forward = forward
+
+
+def _fno_inplace():
+    import torch
+    from torchphysics.models.FNO import _FourierLayer
+    old = _FourierLayer.forward
+
+    def forward(self, points):
+        out = old(self, points)
+        if self.skip_connection:
+            points += 0.0 * out + 0.001                                          # touches the caller's tensor
+        return out
+    _FourierLayer.forward = forward
+
+
+def _fno_position_bias():
+    import torch
+    from torchphysics.models.FNO import _FourierLayer
+    old = _FourierLayer.forward
+
+    def forward(self, points):
+        out = old(self, points)
+        ramp = torch.arange(points.shape[1], dtype=out.dtype).reshape(1, -1, *([1] * (out.dim() - 2)))
+        return out + 0.01 * ramp                                                 # depends on the absolute position
+    _FourierLayer.forward = forward
+
+
+def _fno_irfft_size():
+    import torch
+    from torchphysics.models.FNO import _FourierLayer
+
+    def forward(self, points):
+        fft = torch.fft.rfftn(points, dim=self.fourier_dims, norm="forward")      # normalisation on one side only
+        shp = torch.tensor(fft.shape[1:-1])
+        padding = torch.zeros(2 * self.data_dim + 2, dtype=torch.int32)
+        padding[3::2] = torch.flip((self.mode_num - shp), dims=(0,))
+        fft = torch.nn.functional.pad(fft, padding.tolist())
+        fft = fft * self.fourier_kernel
+        out = torch.fft.irfftn(fft, s=points.shape[1:-1], dim=self.fourier_dims)
+        if self.linear_connection:
+            out += self.linear_transform(points)
+        if self.skip_connection:
+            out += points
+        return out
+    _FourierLayer.forward = forward
+
+
 REGISTRY = {
+    "fno_pad_front": _fno_pad_front, "fno_inplace_input": _fno_inplace, "fno_position_bias": _fno_position_bias,
+    "fno_norm_one_side": _fno_irfft_size,
     "don_contract_reversed": _don_contract_wrong_axis, "don_grad_weight_first_copy": _don_grad_weight,
     "don_branch_cache_by_shape": _don_branch_cache_by_shape, "don_trunk_reshape": _don_trunk_reshape,
     "mdl_fcn_noreorder": _mdl_fcn_noreorder, "mdl_parallel_positional": _mdl_parallel_positional,
@@ -965,6 +1032,7 @@ REGISTRY = {
     "dl_target_perm": _dl_target_perm, "dl_len_floor": _dl_len_floor, "dl_agg_global_mean": _dl_agg_sum,
 }
 BY_PROPERTY = {
+    "C20": ["fno_pad_front", "fno_inplace_input", "fno_position_bias", "fno_norm_one_side"],
     "C09": ["don_contract_reversed", "don_grad_weight_first_copy", "don_branch_cache_by_shape"],
     "C08": ["mdl_fcn_noreorder", "mdl_parallel_positional", "mdl_qres_batch_norm", "mdl_sequential_flip", "mdl_missing_var_zero"],
     "C03": ["do_div_offset", "do_lap_first_only", "do_jac_transposed", "do_rot_sign", "do_grad_sorted_vars"],
